@@ -899,6 +899,48 @@ def _vh_run(first=None, only=None):
     raise RuntimeError("value-history subprocess failed: " + (r.stderr or r.stdout)[-300:])
 
 
+# the colour formats the library documents in its own error message: '#' + 3 or 6 hex digits, 'rgb(r,g,b)', an rgb tuple,
+# a number between 0 and 1, a named CSS colour
+INVALID_COLORS = ["#", "#1", "#12", "#1234", "#12345", "#2E91E", "#1234567", "#12345g", "#ggg", "12345", "rgb(1,2)", "rgb(a,b,c)", "notacolor", "",
+                  (1, 2), (0, 0, 260), -0.5, 1.5, "1.5"]
+VALID_COLORS = ["#123", "#abc", "#ABC", "#123456", "#ABCDEF", "#a1B2c3", "rgb(1,2,3)", (1, 2, 3), (0.1, 0.2, 0.3), 0.5, "0.5", 0, 1, "red", "k"]
+
+
+def check_color_spec(task):
+    """every documented colour format is accepted and every malformed one rejected, through every notation and layer"""
+    import magpylib as magpy
+    from magpylib._src.style import get_style
+
+    hard_reset()
+    viols, n = [], 0
+    routes = {
+        "attr": lambda v: setattr(FAMILIES["magnet"]().style, "color", v),
+        "attr_nested_leaf": lambda v: setp(FAMILIES["magnet"]().style, "magnetization.color.north", v),
+        "update_kw": lambda v: FAMILIES["magnet"]().style.update(color=v),
+        "update_nested": lambda v: FAMILIES["magnet"]().style.update({"path": {"line": {"color": v}}}),
+        "ctor_kw": lambda v: FAMILIES["magnet"](style_color=v).style,
+        "ctor_dict": lambda v: FAMILIES["sensor"](style={"color": v}).style,
+        "copy_kw": lambda v: FAMILIES["current"]().copy(style_color=v).style,
+        "family_default": lambda v: setp(DS(), "display.style.magnet.magnetization.color.south", v),
+        "base_default": lambda v: setp(DS(), "display.style.base.color", v),
+        "colorsequence": lambda v: setattr(magpy.defaults.display, "colorsequence", ["red", v]),
+        "show_kwarg": lambda v: get_style(FAMILIES["magnet"](), DS(), style_color=v),
+    }
+    for kind, vals in (("invalid", INVALID_COLORS), ("valid", VALID_COLORS)):
+        for v in vals:
+            for rname, f in routes.items():
+                n += 1
+                try:
+                    f(copy.deepcopy(v))
+                    got = "accepted"
+                except Exception:
+                    got = "rejected"
+                hard_reset()
+                if (kind == "invalid") != (got == "rejected"):
+                    viols.append((f"{kind}-colour-{got}:{rname}", ["color", repr(v), rname], f"{v!r} is {kind} by the documented formats but was {got}"))
+    return {"transitions": n, "viols": viols}
+
+
 def check_value_history(task):
     """what a style leaf stores depends on the assigned value only - not on values that were assigned before, to this or any
     other object (validators must not remember equal-comparing values of another type). Reference: the same single assignment
@@ -935,6 +977,8 @@ def work(task):
             return check_caller_dicts(task)
         if task[0] in ("valuehist", "valuefresh"):
             return check_value_history(task)
+        if task[0] == "colorspec":
+            return check_color_spec(task)
         return check_leaf(task)
     except Exception as e:
         import traceback
@@ -959,7 +1003,7 @@ def run(tier, seed):
                if not (tier == "quick" and fam in ("triangularmesh", "triangle"))]
     nval = len(COLOR_VALUES)
     firsts = range(nval) if tier == "thorough" else [0, 1, 2, 9, 10, 11, 18, 22, 27]
-    dtasks += [("valuefresh", i) for i in range(nval)] + [("valuehist", i) for i in firsts]
+    dtasks += [("valuefresh", i) for i in range(nval)] + [("valuehist", i) for i in firsts] + [("colorspec", 0)]
     res = common.pmap(work, tasks + dtasks, chunk=1)
     viols, harness, uncovered = [], [], []
     fresh = {t[1]: r.get("fresh") for t, r in zip(tasks + dtasks, res) if t[0] == "valuefresh" and not r.get("harness")}
@@ -985,6 +1029,8 @@ def run(tier, seed):
                 tname = f"{t[1]}.{steps[1]}"
             if t[0] == "valuehist":
                 tname = "valuehistory.color"
+            if t[0] == "colorspec":
+                tname = "colorspec"
             viols.append({"key": f"C20|{tname}|{kind}",
                           "what": f"{tname}: {kind} history={steps} {detail}",
                           "case": {"task": list(t), "kind": kind}, "observed": [kind, detail]})
